@@ -884,14 +884,12 @@ def classify(v, case):
                 and k.get('nov_re1_le_16_76') is True):
             return 'F24'
         return None
-    if mon in ('PG_equal_const', 'PG_equal_iterated_coarse',
-               'PG_split_converged'):
+    if mon in ('PG_equal_iterated_coarse', 'PG_split_converged'):
+        # (the closed-form monitors PG_equal_const / PG_equals_bundle have
+        # no known finding: any failure there is new)
         labels = (k.get('mech') or 'unexplained').split('+')
         known = dict(_PG_LABEL_ID)
         if any(lb not in known for lb in labels):
-            return None
-        if mon == 'PG_equal_const' and labels != [
-                'grid_term_ignored_by_split']:
             return None
         for lb, fid in _PG_LABEL_ID:
             if lb in labels:
